@@ -65,6 +65,8 @@ def run(shard, rec, tier, seed):
 
 
 def indices(n, cap, rng):
+    if n > 3000:
+        cap = 4  # a run costs O(n): huge values get the first, the last and a few random fault points
     if n <= cap:
         return list(range(1, n + 1))
     s = set([1, 2, n, n - 1]) | set(rng.sample(range(1, n + 1), cap - 4))
@@ -169,7 +171,7 @@ def run_tree(rec, tier, seed, ti, spec, t, log, lf):
                 flush_leaks(rec, log, t, ti, name, "invalid object (%s)" % site[1], dict(case, fault=("invalid", site[1]), value=mut.to_json()))
             # ---------- deserialize: clean + faults, on the valid bytes and on a hostile variant
             variants = [data]
-            if data:
+            if data and len(data) <= 5000:
                 b = bytearray(data)
                 b[rng.randrange(len(b))] = rng.choice([0xFF, 0xFE, 0x00])
                 variants.append(bytes(b))
